@@ -63,7 +63,7 @@ def fLabel (s : St) : String :=
 
 def opName : UOp → String
   | .create => "create" | .submit _ => "submit" | .cancel _ => "cancel" | .shutdown .. => "shutdown"
-  | .drop => "drop" | .pyexit => "pyexit"
+  | .drop => "drop" | .pyexit => "pyexit" | .idle => "idle"
 
 def uLabel (s : St) (k : Nat) : String :=
   match s.upc k with
@@ -143,6 +143,7 @@ def parseOp (s : String) : Option UOp :=
   | ["shutdown", w, k] => some (.shutdown (w == "1") (k == "1"))
   | ["drop"] => some .drop
   | ["pyexit"] => some .pyexit
+  | ["idle"] => some .idle
   | _ => none
 
 def kv (ws : List String) (k : String) : String :=
